@@ -9,6 +9,7 @@ import (
 	"strings"
 	"time"
 
+	"github.com/aquilax/hranoprovod-cli/v3/filter"
 	"pgregory.net/rapid"
 )
 
@@ -215,6 +216,7 @@ func (c *CaseC06) Eval(ob *Obs) []Finding {
 	shape := c.CLI.Inv.Shape
 	log := c.CLI.Log
 	var out []Finding
+	var want2 strings.Builder
 	dayp := func(p *int) *string {
 		if p == nil {
 			return nil
@@ -242,6 +244,41 @@ func (c *CaseC06) Eval(ob *Obs) []Finding {
 		w1 := c.invoke(log, dayp(b), dayp(e), pos, c.Zone, c.Clock)
 		w2 := c.invoke(kept, nil, nil, "global", c.Zone, c.Clock)
 		same("C06 period-not-equal-to-deleting-days", fmt.Sprintf("-b %v -e %v (%s) vs the same log with the other days deleted", show(dayp(b)), show(dayp(e)), pos), w1, w2)
+	}
+	// library level: building the filter twice from one Config must select the same days both times
+	// (the Config carries its bounds as pointers; nothing may be written through them)
+	if c.B != nil || c.E != nil {
+		var fc filter.Config
+		if c.B != nil {
+			b := c.base().AddDate(0, 0, *c.B)
+			fc.BeginningTime = &b
+		}
+		if c.E != nil {
+			e := c.base().AddDate(0, 0, *c.E)
+			fc.EndTime = &e
+		}
+		sel := func() string {
+			f := filter.GetIntervalNodeFilter(fc)
+			var b strings.Builder
+			for off := -3; off <= c06Window+2; off++ {
+				ok, err := (*f)(c.base().AddDate(0, 0, off), nil)
+				fmt.Fprintf(&b, "%d:%v:%v ", off, ok, err != nil)
+			}
+			return b.String()
+		}
+		want := ""
+		for off := -3; off <= c06Window+2; off++ {
+			fmt.Fprintf(&want2, "%d:%v:false ", off, (c.B == nil || off >= *c.B) && (c.E == nil || off <= *c.E))
+		}
+		want = want2.String()
+		want2.Reset()
+		for i := 1; i <= 3; i++ {
+			if got := sel(); got != want {
+				out = append(out, Finding{"C06 filter-built-again-selects-other-days", fmt.Sprintf("filter no. %d built from the same Config (begin %v end %v): selects %s, expected %s", i, show(dayp(c.B)), show(dayp(c.E)), got, want)})
+				break
+			}
+		}
+		ob.count("lib_evals", 1)
 	}
 	switch c.Kind {
 	case "window":
